@@ -90,7 +90,9 @@ func renameCall(p *Prog, call ssa.CallInstruction) bool {
 
 func c17Rules(p *Prog, counters map[string]bool) *RuleSet {
 	isCounter := func(m *Matcher, v ssa.Value) bool { return counters[fieldOfLoad(stripConv(v))] }
-	isField := func(m *Matcher, v ssa.Value) bool { return fieldOfLoad(stripConv(v)) != "" && !counters[fieldOfLoad(stripConv(v))] }
+	isField := func(m *Matcher, v ssa.Value) bool {
+		return fieldOfLoad(stripConv(v)) != "" && !counters[fieldOfLoad(stripConv(v))]
+	}
 	digestField := func(m *Matcher, v ssa.Value) bool {
 		f := fieldOfLoad(v)
 		return f != "" && strings.HasPrefix(f, "fdo/fsim.") && strings.Contains(v.Type().String(), "[]byte")
